@@ -48,9 +48,10 @@ type udpArrival struct {
 	payload []byte
 	src     tcpip.Address
 	sport   uint16
-	taken   bool
-	afterRC bool // arrived after the read side was closed
-	must    bool // little unread data was queued when it arrived: it must be kept
+	copies  int    // 1, or 2 when the wire duplicated it (indistinguishable arrivals are one record)
+	takenN  int    // copies returned by Read so far
+	mustN   []bool // per copy: little unread data was queued when it arrived, so it must be kept
+	afterRC bool   // arrived after the read side was closed
 }
 
 type udpSock struct {
@@ -153,28 +154,35 @@ func (w *udpWorld) arrive(si, n, srcSel, flags int, wait bool) {
 		}
 	}
 	w.narr++
-	a := &udpArrival{id: w.narr, payload: udpPayload(w.seed, w.narr, n), src: src, sport: sport, afterRC: s.readClose}
-	a.must = !s.readClose && s.unread <= 2048
-	if s.kind == 2 && !v6 {
-		// a dual-stack socket reports IPv4 senders as they are (the stack hands up the 4-byte address)
+	a := &udpArrival{id: w.narr, payload: udpPayload(w.seed, w.narr, n), src: src, sport: sport, afterRC: s.readClose, copies: 1}
+	// payloads shorter than 4 bytes cannot carry their identity: never let two
+	// indistinguishable datagrams (same bytes, same sender) be outstanding at once
+	for _, x := range s.arrivals {
+		if x.takenN < x.copies && bytes.Equal(x.payload, a.payload) && x.src == src && x.sport == sport {
+			n = 4 + n
+			a.payload = udpPayload(w.seed, w.narr, n)
+			break
+		}
 	}
+	a.mustN = []bool{!s.readClose && s.unread <= 2048}
 	s.arrivals = append(s.arrivals, a)
 	if !s.readClose {
 		s.unread += n
 	}
 	dg := codec.EncodeUDP([]byte(src), []byte(dst), sport, s.port, a.payload)
 	dup := flags&2 != 0
-	for k := 0; k < 1+b2i(dup); k++ {
-		if k == 1 {
-			// wire duplication: a second, separate arrival with the same bytes
-			w.narr++
-			d := &udpArrival{id: w.narr, payload: a.payload, src: src, sport: sport, afterRC: s.readClose}
-			s.arrivals = append(s.arrivals, d)
-			if !s.readClose {
-				s.unread += n
-			}
-			w.Faults["duplicate"]++
+	if dup {
+		// wire duplication: a second arrival with the same bytes from the same sender
+		// (registered before the first copy is injected: a reader may be waiting)
+		a.copies = 2
+		a.mustN = append(a.mustN, !s.readClose && s.unread <= 2048)
+		if !s.readClose {
+			s.unread += n
 		}
+		w.Faults["duplicate"]++
+	}
+	for k := 0; k < 1+b2i(dup); k++ {
+
 		if v6 {
 			pkt := codec.IPv6([]byte(src), []byte(dst), codec.ProtoUDP, 64, dg)
 			if wait {
@@ -217,46 +225,38 @@ func (w *udpWorld) read(si int) bool {
 		return false
 	}
 	s.reads++
-	// the earliest not-yet-returned arrival with exactly these bytes, at or after the last one returned
+	w.Tracef("read sock=%d len=%d from=%x:%d next=%d arrivals=%d", si, len(v), []byte(from.Addr), from.Port, s.next, len(s.arrivals))
+	// the earliest arrival record with an unreturned copy of exactly these bytes from this sender
 	var hit *udpArrival
 	idx := -1
-	// (short payloads are not unique: an arrival is identified by bytes and sender together)
 	for pass := 0; pass < 2 && hit == nil; pass++ {
 		for i := s.next; i < len(s.arrivals); i++ {
 			a := s.arrivals[i]
-			if !a.taken && bytes.Equal(a.payload, v) && (pass == 1 || (a.src == from.Addr && a.sport == from.Port)) {
+			if a.takenN < a.copies && bytes.Equal(a.payload, v) && (pass == 1 || (a.src == from.Addr && a.sport == from.Port)) {
 				hit, idx = a, i
 				break
 			}
 		}
 	}
 	if hit == nil {
-		// was it returned before, out of order, or is it nobody's payload?
-		for i, a := range s.arrivals {
+		for _, a := range s.arrivals {
 			if bytes.Equal(a.payload, v) {
-				if a.taken && i >= 0 {
-					w.Fail("datagram-returned-twice-or-reordered", "", "socket %d (port %d): Read returned the %d-byte payload of arrival #%d again or out of arrival order", si, s.port, len(v), a.id)
-					return true
-				}
+				w.Fail("datagram-returned-twice-or-reordered", "", "socket %d (port %d): Read returned the %d-byte payload of arrival #%d more often than it arrived, or out of arrival order", si, s.port, len(v), a.id)
+				return true
 			}
 		}
 		w.Fail("datagram-altered", "", "socket %d (port %d): Read returned %d bytes (% x...) that are not the payload of any datagram sent to it (truncated, split, merged or invented)", si, s.port, len(v), head(v, 16))
 		return true
 	}
-	hit.taken = true
-	// everything skipped over was dropped whole
+	// everything passed over was dropped whole
 	for i := s.next; i < idx; i++ {
-		if a := s.arrivals[i]; !a.taken {
-			if a.must {
-				w.Fail("datagram-lost", "", "socket %d (port %d): arrival #%d (%d bytes) was skipped although at most 2 KB were unread when it arrived and the read side was open", si, s.port, a.id, len(a.payload))
-			}
-			if !a.afterRC {
-				s.unread -= len(a.payload)
-			}
-			w.Probes["dropped_whole"]++
-		}
+		w.pass(si, s, s.arrivals[i])
 	}
-	s.next = idx + 1
+	hit.takenN++
+	s.next = idx
+	if hit.takenN == hit.copies {
+		s.next = idx + 1
+	}
 	if !hit.afterRC {
 		s.unread -= len(hit.payload)
 	}
@@ -483,6 +483,9 @@ func (scUDP) Run(t *testing.T, prop string, seed uint64, cfgRaw json.RawMessage,
 			if w.Viol == nil && !s.closed {
 				for w.read(i) {
 				}
+				for _, a := range s.arrivals[s.next:] {
+					w.pass(i, s, a)
+				}
 			}
 			reads += s.reads
 			if s.rch != nil {
@@ -504,4 +507,28 @@ func (scUDP) Run(t *testing.T, prop string, seed uint64, cfgRaw json.RawMessage,
 		_ = fmt.Sprint
 	})
 	return o
+}
+
+// pass accounts for the copies of an arrival that will never be returned any
+// more: they were dropped whole, which is a violation if they had to be kept.
+func (w *udpWorld) pass(si int, s *udpSock, a *udpArrival) {
+	// the copies dropped are the last ones (a full buffer drops later arrivals)... any must copy beyond those taken counts
+	need := 0
+	for _, m := range a.mustN {
+		if m {
+			need++
+		}
+	}
+	lost := a.copies - a.takenN
+	if lost <= 0 {
+		return
+	}
+	w.Probes["dropped_whole"] += int64(lost)
+	if a.takenN < need && w.Viol == nil {
+		w.Fail("datagram-lost", "", "socket %d (port %d): arrival #%d (%d bytes, %d cop(ies)) was returned %d time(s) although %d cop(ies) arrived with at most 2 KB unread and the read side open", si, s.port, a.id, len(a.payload), a.copies, a.takenN, need)
+	}
+	if !a.afterRC {
+		s.unread -= lost * len(a.payload)
+	}
+	a.takenN = a.copies
 }
